@@ -337,6 +337,9 @@ def run(ctx):
     n1_init(ctx, leaves)
     n2_reset(ctx, leaves)
     n3_hidden_inputs(ctx)
+    if ctx.tier == 'thorough':
+        from .. import witness
+        witness.c17_init_witness(ctx)
     for l in leaves[:3] + leaves[120:123]:
         ctx.sample({'leaf': l.path, 'kind': l.kind, 'initialised_by': l.why})
     ctx.assumptions += ['user-supplied DSP memory and host callbacks are inputs of the call history',
